@@ -169,7 +169,7 @@ StepPub(s, e) ==
         frozenev == isev /\ byengine /\ (StackIDs(e.stack) \cap s.failedIDs) # {}
         s1 == [s EXCEPT !.b = Publish(@, e.sn, SeqToSet(e.routed)),
                         !.msg = Upd(@, e.sn, info),
-                        !.ev = IF isev /\ e.mid # "" THEN Upd(@, e.mid, [exec |-> e.exec, stack |-> e.stack, state |-> e.state, sn |-> e.sn, stype |-> e.stype, smid |-> e.smid]) ELSE @,
+                        !.ev = IF isev /\ e.mid # "" THEN Upd(@, e.mid, [exec |-> e.exec, stack |-> e.stack, state |-> e.state, sn |-> e.sn, stype |-> e.stype, smid |-> e.smid, datatext |-> e.datatext]) ELSE @,
                         !.rpcs = IF e.kind = "rpc" /\ e.routed # <<>>
                                  THEN @ \cup {[sn |-> e.sn, corr |-> e.corr, base |-> e.corrbase, exec |-> x, stage |-> "queued", fn |-> e.fn, conn |-> e.conn]}
                                  ELSE @,
@@ -280,6 +280,13 @@ StepHist(s, e) ==
          \o ChkX(~FrameIsExpress(s) \/ (ex0.sm # "" /\ ex0.sm \in DOMAIN s.smtype /\ s.smtype[ex0.sm] # "EXPRESS"), "C09", "ExpressStoresNothing:history", x, e.ev.type)
          \o ChkX(HistAppendOK(ex0.hist, e.ev), "C09", "HistoryWellFormed", x, e.ev)
          \o ChkX(ExitFollowsEnter(ex0.hist, e.ev), "C09", "ExitFollowsEnter", x, [type |-> e.ev.type, name |-> e.ev.name])
+         (* "every state that is entered logs StateEntered with its input": an entry logged while an event is being
+            delivered names that event's state and carries that event's data *)
+         \o (LET m == IF s.fr.cause = "deliver" /\ s.fr.mid \in DOMAIN s.ev THEN s.ev[s.fr.mid] ELSE [exec |-> "", state |-> "", datatext |-> ""]
+                 entered == \E t \in StateTypeNames : e.ev.type = t \o "StateEntered"
+             IN ChkX(~(entered /\ s.fr.cause = "deliver" /\ s.fr.mid \in DOMAIN s.ev /\ m.exec \in {"", x})
+                     \/ ((m.state = "" \/ e.ev.name = m.state) /\ e.ev.input.set /\ e.ev.input.s = m.datatext),
+                     "C09", "EnteredWithItsInput", x, [name |-> e.ev.name, state |-> m.state, input |-> e.ev.input]))
          \o ChkX(NothingAfterTerminal(h1), "C09", "NothingAfterTerminal", x, e.ev.type)
          \o ChkX(~again, "C06", "FanOutFailsOnce", x, id))
 
